@@ -74,6 +74,18 @@ def cases(rng, tier):
 		specs = [x for x in specs]
 		rng.shuffle(specs)
 		yield ('r', DEFAULT, n, b'bytes=' + rng.choice((b',', b', ', b' ,')).join(specs), rng.randrange(len(ETAGS)))
+	# large representations and many ranges (sizes and counts around the numbers a buffer or a limit would have)
+	for n in (8191, 8192, 8193, 65535, 65536, 65537, 200000):
+		for f, l in ((0, 1), (0, n - 1), (n - 2, n - 1), (n // 2 - 1, n // 2 + 1), (4095, 4097), (1, n - 2)):
+			if f < l < n:
+				yield ('r', DEFAULT, n, b'bytes=%d-%d' % (f, l), rng.randrange(len(ETAGS)))
+	for cnt in (5, 9, 17, 33, 65) + ((129,) if tier == 'thorough' else ()):
+		n = 20000
+		size = 20
+		starts = sorted(rng.sample(range(0, n - size - 1, size + 3), cnt))
+		specs = [b'%d-%d' % (s0, s0 + size) for s0 in starts]
+		rng.shuffle(specs)
+		yield ('r', DEFAULT, n, b'bytes=' + b','.join(specs), 0)
 	for _ in range(k // 2):
 		n = rng.choice((10, 64, 300))
 		v = rng.choice([b'bytes=%d-' % rng.randrange(0, n + 5), b'bytes=-%d' % rng.randrange(0, n + 5), b'bytes=%d-%d' % (rng.randrange(0, n + 5), rng.randrange(0, n + 9)),
